@@ -35,7 +35,12 @@ pub fn decode(mut src: &[u8], mut uncompressed_size: usize) -> io::Result<Vec<u8
     let mut dst = vec![0; uncompressed_size];
 
     if flags.is_uncompressed() {
-        dst.copy_from_slice(src);
+        // The uncompressed size is not guaranteed to match the length of the input.
+        let buf = src
+            .get(..dst.len())
+            .ok_or_else(|| io::Error::from(io::ErrorKind::UnexpectedEof))?;
+
+        dst.copy_from_slice(buf);
     } else if flags.uses_external_codec() {
         decode_ext(&mut src, &mut dst)?;
     } else if flags.is_rle() {
